@@ -46,9 +46,12 @@ pub enum Bad {
     /// variable)
     PathBadArg(bool),
     EvalBadArg,
+    /// the same with acceptable arguments in front of the refused one
+    PathBadArgLast(bool),
+    EvalBadArgLast,
 }
 
-const N_BAD: usize = 25;
+const N_BAD: usize = 28;
 
 fn bad_from(i: usize) -> Bad {
     match i % N_BAD {
@@ -76,7 +79,10 @@ fn bad_from(i: usize) -> Bad {
         21 => Bad::LoadGarbage,
         22 => Bad::PathBadArg(true),
         23 => Bad::PathBadArg(false),
-        _ => Bad::EvalBadArg,
+        24 => Bad::EvalBadArg,
+        25 => Bad::PathBadArgLast(true),
+        26 => Bad::PathBadArgLast(false),
+        _ => Bad::EvalBadArgLast,
     }
 }
 
@@ -224,6 +230,24 @@ fn inject(h: &mut Host, b: &Bad) -> Option<(bool, bool)> {
             let name = h.meta.knots.iter().find(|k| k.contains('f')).cloned().unwrap_or(first_knot.clone());
             let mut out = String::new();
             Some((h.story.evaluate_function(&name, Some(&vec![v]), &mut out).is_err(), false))
+        }
+        Bad::PathBadArgLast(reset) => {
+            let v = h.story.get_variable("zz_dt")?;
+            if !matches!(v, ValueType::DivertTarget(_)) {
+                return None;
+            }
+            let args = vec![ValueType::Int(7), ValueType::new::<&str>("word"), v];
+            Some((h.story.choose_path_string(&first_knot, *reset, Some(&args)).is_err(), false))
+        }
+        Bad::EvalBadArgLast => {
+            let v = h.story.get_variable("zz_dt")?;
+            if !matches!(v, ValueType::DivertTarget(_)) {
+                return None;
+            }
+            let name = h.meta.knots.iter().find(|k| k.contains('f')).cloned().unwrap_or(first_knot.clone());
+            let mut out = String::new();
+            let args = vec![ValueType::Int(7), v];
+            Some((h.story.evaluate_function(&name, Some(&args), &mut out).is_err(), false))
         }
     }
 }
